@@ -222,7 +222,7 @@ def check_find_stab(ctx: Ctx, g, label: dict, rng, state: dict, expect_zero: boo
     ref = values(g, assigns)
     work = g.copy()
     try:
-        with time_limit(300), Trace() as tr:
+        with time_limit(120), Trace() as tr:
             work_id = tr.gid(work)
             res = find_stab(work)
     except Exception as e:  # noqa
@@ -711,9 +711,13 @@ def run(ctx: Ctx) -> int:
         det = (i % 4 == 3)
         cases.append((gen_circuit(prng, nq, bs_max=5, out_cap=8, nc_max=3, noise_max=3, detectors=det), det, False))
     import time as _time
+    budget = 170 if quick else 1100     # seconds; never reached on the unchanged tree (quick ~20 s), bounds mutated/slow variants
     for text, det, deep in cases:
         if ctx.violations:
             break
+        if _time.time() - ctx.t0 > budget:
+            ctx.cov["circuits_skipped_time_budget"] = ctx.cov.get("circuits_skipped_time_budget", 0) + 1
+            continue
         _t, _e = _time.time(), ctx.evaluations
         try:
             run_circuit(ctx, text, det, rng, state, deep=deep)
